@@ -72,6 +72,7 @@ func main() {
 		panicOK  = flag.Bool("panicok", false, "uncaught panics are not violations")
 		unwindBug = flag.Bool("unwindbug", false, "hitting the unwinding bound is the violation")
 		nospawn  = flag.Bool("nospawn", false, "do not run goroutines started with go")
+		sched    = flag.Int("sched", 0, "scheduling points per path that fork over all runnable goroutines (0: always the lowest-numbered)")
 		revmaps  = flag.Bool("revmaps", false, "iterate maps in reverse insertion order")
 		maxViol  = flag.Int("maxviol", 3, "models kept per violated label")
 		shard    = flag.Int("shard", 0, "shard index")
@@ -172,7 +173,7 @@ func main() {
 	solver.auxBin = *auxbin
 
 	ecfg := Config{Unwind: *unwind, MaxPaths: *maxPaths, MaxSteps: *maxSteps, MaxAlloc: *maxAlloc, Timeout: *timeout,
-		SolverMs: *solverMs, Samples: *samples, PanicOK: *panicOK, UnwindIsBug: *unwindBug, NoSpawn: *nospawn,
+		SolverMs: *solverMs, Samples: *samples, PanicOK: *panicOK, UnwindIsBug: *unwindBug, NoSpawn: *nospawn, SchedBound: *sched,
 		Verbose: *verbose, MaxViolPerLabel: *maxViol, ReverseMaps: *revmaps, NoIfConv: *noifconv, Shard: *shard, NShards: *nshards, SplitK: *splitk}
 	e := NewEngine(prog, ecfg, solver)
 
